@@ -158,9 +158,10 @@ def stream_typed_ranking(ctx):
     S = ctx.stream("O-ranking-typed", "typed tables (>= 1000 rows) through get_convertor/apply_convertors: a uniform k-category timestamp column (spacing 250 us .. 1 day), "
                    "a string and an int column that are one-to-one functions of it, an independent int column: entropy = log2 k +- 0.15, one-to-one >= 0.6, "
                    "independent <= 0.25; non-trivial = every table")
-    for _ in range(ctx.scale(3, 16)):
+    for it in range(ctx.scale(3, 16)):
         n = R.choice([1000, 1500]); k = R.choice([2, 3, 4, 5, 8])
-        step = R.choice([pd.Timedelta(250, "us"), pd.Timedelta(100, "ms"), pd.Timedelta(1, "s"), pd.Timedelta(1, "D")])
+        # the first tables always have sub-second spacing, the others vary
+        step = [pd.Timedelta(250, "us"), pd.Timedelta(100, "ms")][it] if it < 2 else R.choice([pd.Timedelta(250, "us"), pd.Timedelta(100, "ms"), pd.Timedelta(1, "s"), pd.Timedelta(1, "D")])
         base = pd.Timestamp("2021-03-04 10:11:12") + pd.Timedelta(R.randrange(10**6), "us")
         idx = [i % k for i in range(n)]; R.shuffle(idx)
         perm = list(range(k)); R.shuffle(perm)
